@@ -36,6 +36,13 @@ fn streams(n: usize, both: bool) -> Vec<StreamSpec> {
             opener_plan: EndPlan::Seq(vec![Op::Burst(n, 1), Op::Park]),
             acceptor_plan: EndPlan::Seq(vec![Op::Park]),
         },
+        // a stream bridged to local pipes on both ends (penguin's real data path)
+        StreamSpec {
+            tag: 4,
+            opener: 0,
+            opener_plan: EndPlan::Bridged(4, vec![Op::Burst(n.min(12), 2), Op::Shutdown, Op::ReadToEof(8)]),
+            acceptor_plan: EndPlan::Bridged(4, vec![Op::ReadToEof(3), Op::Burst(3, 1), Op::Shutdown]),
+        },
         // a late stream request that must still be served, opened by the other side
         StreamSpec {
             tag: 3,
